@@ -257,8 +257,58 @@ func reconnect() {
 	fx.Settle()
 	vrt.Observe("concurrent=%v errs=%v dials=%d open=%d", concurrent, errs[0] != nil || errs[1] != nil, vnet.Dials["tcp://b"], vnet.OpenClientConns("tcp://b"))
 }
+// unreachable: a registered service advertised only with addresses that are
+// never dialled (the 198.18.0.x test range) or that nobody listens on: the
+// request cannot succeed, but it must fail with an error - not crash - and
+// the session keeps working.
+func unreachable() {
+	w := start(false)
+	kind := vrt.ChooseFree(3, "addresses: test-range only / dead only / both")
+	eps := [][]string{{"tcp://198.18.0.1:9559"}, {"tcp://nobody"}, {"tcp://198.18.0.1:9559", "tcp://nobody"}}[kind]
+	hs, err := session.NewSession("tcp://sd")
+	if err != nil {
+		panic(err)
+	}
+	ns, err := services.Namespace(hs, eps)
+	if err != nil {
+		panic(err)
+	}
+	id, err := ns.Reserve("Ghost")
+	if err != nil {
+		vrt.Failf("harness/reserve", "%v", err)
+		return
+	}
+	if err := ns.Enable(id); err != nil {
+		vrt.Failf("harness/enable", "%v", err)
+		return
+	}
+	vrt.Quiesce()
+	vrt.Explore()
+	var e1, e2 error
+	ws := []*vrt.Thread{
+		vrt.GoWorker("ghost", func() { _, e1 = w.sess.Proxy("Ghost", 1) }),
+		vrt.GoWorker("probe", func() {
+			p, err := w.sess.Proxy("Probe", 1)
+			if err == nil {
+				_, err = probe.MakeProbe(w.sess, p).Echo(4)
+			}
+			e2 = err
+		}),
+	}
+	vrt.Quiesce()
+	fx.Settle(ws...)
+	if e1 == nil {
+		vrt.Failf("unreachable-service-proxy", "Proxy(Ghost) succeeded although none of its addresses %v can be connected", eps)
+	}
+	if e2 != nil {
+		vrt.Failf("request-failed/Probe", "a request for a reachable service failed while another one asked for an unreachable service: %v", e2)
+	}
+	vrt.Observe("kind=%d e1=%v", kind, e1 != nil)
+}
 
 func init() {
+	reg.Register(&reg.Scenario{Property: "C19", Name: "unreachable-service", Body: unreachable, Quick: 1, Thorough: 2,
+		Doc: "a registered service whose advertised addresses are never dialled (test range) or dead: its request fails with an error, no crash, while another goroutine gets a working proxy to a reachable service"})
 	reg.Register(&reg.Scenario{Property: "C19", Name: "reconnect-after-connection-loss", Body: reconnect, Quick: 1, Thorough: 2,
 		Doc: "the pooled connection to an endpoint is closed by the remote side (before, or while, two goroutines request proxies): the session dials again, the requests succeed and share one connection", MustFlag: []string{"dialled-again:tcp://b"}})
 	reg.Register(&reg.Scenario{Property: "C19", Name: "two-same-endpoint", Body: body([]string{"Probe", "Probe"}, false), Quick: 1, Thorough: 2,
